@@ -397,8 +397,10 @@ class NodeScanner:
         self.nodes: List[int] = []
 
     def on_message_received(self, can_id: int):
-        service = can_id & 0x780
         node_id = can_id & 0x7F
+        # Function code of the predefined connection set; anything above 11 bits
+        # (extended frame format) is not one of its services
+        service = can_id - node_id
         if node_id not in self.nodes and node_id != 0 and service in self.SERVICES:
             self.nodes.append(node_id)
 
